@@ -89,8 +89,11 @@ type vhtunOutput struct {
 }
 
 func vhtunByte(seed int, i int) byte {
-	x := uint32(seed)*2654435761 + uint32(i)*40503 + uint32(i>>8)*97
-	return byte(x >> 13)
+	x := (uint32(i) + uint32(seed)*0x9E3779B1) * 0x85EBCA6B
+	x ^= x >> 15
+	x *= 0xC2B2AE35
+	x ^= x >> 16
+	return byte(x)
 }
 
 func vhtunFill(seed, n int) []byte {
